@@ -174,9 +174,15 @@ static std::string op_step(const std::vector<std::string>& w) {
       f.serialize(ss);
       std::string s = ss.str();
       b->assign(s.begin(), s.end());
-    } else {
+    } else if (w[3] == "0") {
       auto img = f.serialize();
       b->assign(img.begin(), img.end());
+    } else {
+      // byte form behind a caller header of (w[3] - 1) bytes: the image is what follows the header; the header bytes must be left alone
+      const unsigned hdr = static_cast<unsigned>(atoi(w[3].c_str())) - 1;
+      auto img = f.serialize(hdr);
+      if (img.size() < hdr) return "bad-header-image";
+      b->assign(img.begin() + hdr, img.end());
     }
     put_block(atoi(w[2].c_str()), std::move(b));
     return "ok";
